@@ -226,6 +226,10 @@ def prove_remove(src_root, ex: Explorer):
 
         def c_abort(it2, f, a, k):
             def body(it3):
+                # contract of TransferManager.abort (C03.manager.abort.*): the transfer must be registered, otherwise TransferNotFoundError
+                # is raised and NOTHING is aborted (no task is cancelled)
+                if not any(x is a[1] for x in mgr.attrs['_transfers']):
+                    raise PyRaise(ExcVal(cls(it3, 'exceptions', 'TransferNotFoundError'), ('not added',)))
                 calls.append(a[1])
                 if oc == 'refused':
                     raise PyRaise(ExcVal(cls(it3, 'exceptions', 'InvalidStateTransition'), ()))
